@@ -8,7 +8,7 @@ Ops (driver side in lean/NetaddrVerif/Driver/C01.lean):
   raw-exception model (Model/AddrRaw.lean): ip_parse_raw be4 be6 S ver flags (the two back-end switches apart:
   be4 = fb imports netaddr with sys.platform='win32' only, be6 = fb with socket.has_ipv6=False only) ·
   s2i_raw F be S flags (strategy.ipv4/ipv6.str_to_int, value or the class raised) · raw_call fn be S with fn in
-  aton|pton4|pton6|int (the very callables the strategy modules bound at import, value or the class raised) ·
+  aton|pton4|pton6|int (the very callables the strategy modules bound at import: value / raised below Exception / raised outside it) ·
   ip_format be6 F V D (IPAddress.format; D = - | compact | full | verbose | nowf | wfonly)
 be = pl (netaddr as imported here: platform socket functions) | fb (netaddr imported in a
 dedicated subprocess with sys.platform='win32' and socket.has_ipv6=False, so that
@@ -188,19 +188,26 @@ def run_real(netaddr, a):
         except BaseException as e:
             return '!' + _errname(netaddr, e)
     if op == 'raw_call':
+        # the callables the strategy modules bound at import (under their present private names; if a name
+        # is gone, the function the back-end choice stands for).  Only "value / raised something below
+        # Exception / raised something else" is reported: which class the platform raises is not a clause
+        # of the property, and it is all the theorems ask of a platform (RawPlatform.Sane).
         _, fn, be, s = a
+        import socket
+        from netaddr import fbsocket
         from netaddr.strategy import ipv4 as m4, ipv6 as m6
+        src = fbsocket if be == 'fb' else socket
         try:
             if fn == 'aton':
-                return str(int.from_bytes(m4._inet_aton(s), 'big'))
+                return str(int.from_bytes(getattr(m4, '_inet_aton', socket.inet_aton)(s), 'big'))
             if fn == 'pton4':
-                return str(int.from_bytes(m4._inet_pton(m4.AF_INET, s), 'big'))
+                return str(int.from_bytes(getattr(m4, '_inet_pton', src.inet_pton)(getattr(m4, 'AF_INET', src.AF_INET), s), 'big'))
             if fn == 'pton6':
-                return str(int.from_bytes(m6._inet_pton(m6.AF_INET6, s), 'big'))
+                return str(int.from_bytes(getattr(m6, '_inet_pton', src.inet_pton)(getattr(m6, 'AF_INET6', src.AF_INET6), s), 'big'))
             if fn == 'int':
                 return str(int(s))
         except BaseException as e:
-            return '!' + _errname(netaddr, e)
+            return '!exception' if isinstance(e, Exception) else '!base'
     if op == 'format':
         _, be6, ver, v, d, k = a
         ip = _mk_addr(netaddr, ver, v)
